@@ -19,10 +19,13 @@ Monitors (oracle: vlib/models/c09_headers.py, strict RFC recognisers + evaluator
 """
 
 import datetime
+import contextlib
 import itertools
 import operator
+import os
 import random
 import re
+import time
 import traceback
 
 import falcon
@@ -40,6 +43,29 @@ BUDGET = {'quick': 15, 'thorough': 150}
 
 UTC = datetime.timezone.utc
 STACKS = ('wsgi', 'asgi')
+
+# process time zones the cases run under (the property does not depend on where the server runs): POSIX TZ
+# strings need no tz database; the named ones use it when present.
+TZS = ['UTC', 'JST-9', 'EST5EDT,M3.2.0,M11.1.0', 'NPT-5:45', 'Asia/Tokyo', 'America/New_York', 'Pacific/Chatham']
+
+
+@contextlib.contextmanager
+def process_tz(tz):
+    """run a block with the process-local time zone set to tz (None: leave it alone)."""
+    if tz is None:
+        yield
+        return
+    old = os.environ.get('TZ')
+    os.environ['TZ'] = tz
+    time.tzset()
+    try:
+        yield
+    finally:
+        if old is None:
+            os.environ.pop('TZ', None)
+        else:
+            os.environ['TZ'] = old
+        time.tzset()
 
 # proposed known-finding keys (narrow classifiers below)
 K_PARSE_HOST = 'parse-host-port-valueerror'
@@ -489,7 +515,14 @@ def e2e(case, snaps, rng, tainted=()):
 
 def roundtrip(rt_case):
     """rt_case: {'lm': iso, 'lm_aware': bool, 'ex': iso, 'etag_in': str, 'etag_want': [opaque, weak]}."""
+    with process_tz(rt_case.get('tz')):
+        return _roundtrip(rt_case)
+
+
+def _roundtrip(rt_case):
     findings, C = [], {}
+    tzc = 'utc' if rt_case.get('tz') in (None, 'UTC') else 'other'
+    C['mon.roundtrip.tz_%s.%s' % (tzc, 'aware' if rt_case.get('aware') else 'naive')] = 1
     lm = datetime.datetime.fromisoformat(rt_case['lm'])
     ex = datetime.datetime.fromisoformat(rt_case['ex'])
     want_lm = lm.replace(microsecond=0, tzinfo=UTC)
@@ -849,6 +882,8 @@ def random_case(rng, p_mut=0.35):
         c['asgi_no_server'] = True
     if rng.random() < 0.2:
         c['asgi_ws'] = True
+    if rng.random() < 0.3:
+        c['tz'] = rng.choice(TZS)
     for name, g in GENS.items():
         if rng.random() < P_PRESENT.get(name, 0.25):
             v = g(rng)
@@ -988,6 +1023,8 @@ def atomic_case(names, value, extra, idx):
     if extra:
         c.update(extra)
     c['headers'] = [[n, value] for n in names]
+    if names and names[0] in ('Date', 'If-Modified-Since', 'If-Unmodified-Since'):
+        c['tz'] = TZS[idx % len(TZS)]
     return finish_case(c, r)
 
 
@@ -1030,7 +1067,13 @@ class Runner:
             rec.violation(f['kind'] + ':' + family(f['accessor']), w, known_key=known)
 
     def run_case(self, case, do_e2e=False):
+        with process_tz(case.get('tz')):
+            return self._run_case(case, do_e2e)
+
+    def _run_case(self, case, do_e2e=False):
         rec = self.rec
+        if case.get('tz'):
+            rec.count('tz.' + ('utc' if case['tz'] == 'UTC' else 'other') + '.cases')
         findings, C, BR, snaps = evaluate(case)
         self.merge(C)
         for b in BR:
@@ -1040,7 +1083,7 @@ class Runner:
             self.merge(C2)
             findings += f2
         rec.case(repr((case['scheme'], case['server'], case['client'], case['root_path'], case['path'], case['query'],
-                       case['headers'], case.get('asgi_no_server'), case.get('asgi_ws'))) if nontrivial(case) else None)
+                       case['headers'], case.get('asgi_no_server'), case.get('asgi_ws'), case.get('tz'))) if nontrivial(case) else None)
         self.n += 1
         if findings:
             self.report(case, findings)
@@ -1065,8 +1108,17 @@ def shrink(case, f):
     return cur
 
 
-def gen_roundtrip(rng):
+# naive UTC wall times that do not exist / are ambiguous as LOCAL times in the DST zones above
+DST_EDGE = ['2024-03-10T02:30:00', '2024-11-03T01:30:00', '2024-03-10T07:00:00', '2024-04-07T02:50:00',
+            '2024-09-29T02:50:00', '1970-01-01T00:00:00', '2038-01-19T03:14:08']
+
+
+def gen_roundtrip(rng, i=None):
     lm, ex = gen_dt(rng, lo=1000), gen_dt(rng, lo=1000)
+    if rng.random() < 0.25:
+        lm = datetime.datetime.fromisoformat(rng.choice(DST_EDGE))
+    if rng.random() < 0.25:
+        ex = datetime.datetime.fromisoformat(rng.choice(DST_EDGE))
     if rng.random() < 0.3:
         lm = lm.replace(microsecond=rng.randrange(1000000))
     pool = rng.choice(['abcxyz019', ETAGC, ',W/*\\;=ab'])
@@ -1085,8 +1137,13 @@ def gen_roundtrip(rng):
         t = ETag(opaque)
         t.is_weak = weak
         etag_in = t.dumps()
-    return {'lm': lm.isoformat(), 'ex': ex.isoformat(), 'aware': rng.random() < 0.5, 'etag_in': etag_in,
-            'etag_want': [opaque, weak]}
+    rt = {'lm': lm.isoformat(), 'ex': ex.isoformat(), 'aware': rng.random() < 0.5, 'etag_in': etag_in,
+          'etag_want': [opaque, weak], 'tz': rng.choice(TZS)}
+    if i is not None:
+        # deterministic sweep: every zone with naive and with aware datetimes
+        rt['tz'] = TZS[i % len(TZS)]
+        rt['aware'] = bool((i // len(TZS)) % 2)
+    return rt
 
 
 FLOORS_COMMON = {
@@ -1101,6 +1158,8 @@ FLOORS_COMMON = {
     'mon.repeat': 10000, 'mon.fresh_other_order': 10000, 'mon.fresh_alone': 5000,
     'mon.e2e.wsgi': 50, 'mon.e2e.asgi': 50, 'mon.e2e.status4xx': 10, 'mon.e2e.status200': 20,
     'mon.roundtrip.date': 100, 'mon.roundtrip.etag': 60,
+    'mon.roundtrip.tz_other.naive': 40, 'mon.roundtrip.tz_other.aware': 40, 'mon.roundtrip.tz_utc.naive': 8,
+    'tz.other.cases': 300,
     'raised.4xx.range': 20, 'raised.4xx.date': 20, 'raised.4xx.cl': 5,
 }
 BRANCH_FLOORS = [
@@ -1140,7 +1199,8 @@ def run(rec):
         'values incl. the empty one (calibrated per stack on a non-empty canary); an IPv6 host with or without brackets',
         'Accept media-range parameters other than q, duplicate ranges and quoted strings are left to C11',
         'header values are latin-1 texts (PEP 3333 native strings / ASGI bytes); query strings are ASCII',
-        'response round trip uses years 1000-9999 (strftime does not zero-pad smaller years)',
+        'response round trip uses years 1000-9999 (strftime does not zero-pad smaller years); naive datetimes are '
+        'UTC as documented; round trips and date cases run under several process time zones (TZ + time.tzset())',
         'a grammar-valid set of two or more ranges must raise a 4xx (documented for Request.range); "-0", last<first, '
         'empty list elements and second=60 are left open (value or 4xx)',
         'the e2e apps use a plain error serializer: negotiating the error body against Accept is error rendering '
@@ -1185,8 +1245,8 @@ def run(rec):
         rec.note('exhaustive part: %d atomic requests (all shards together)' % idx)
     # ---- part 1c: response -> request round trips
     rng = rec.rng
-    for _ in range(40 if not deep else 150):
-        rt = gen_roundtrip(rng)
+    for i in range(42 if not deep else 154):
+        rt = gen_roundtrip(rng, i)
         f, C = roundtrip(rt)
         R.merge(C)
         rec.case(('rt', rt['lm'], rt['etag_in']))
